@@ -774,8 +774,13 @@ func (e *Enc) callSiteAsserts(x *ssa.Call, cc *callCtx) {
 		if nm == "" {
 			nm = "wf"
 		}
-		e.r.addObl(&Obligation{Name: fmt.Sprintf("%s#assert@%s.%s", e.r.fnShort, name, nm), Kind: "assert", Tags: ca.C.Tags,
+		oname := fmt.Sprintf("%s#assert@%s.%s", e.r.fnShort, name, nm)
+		e.r.addObl(&Obligation{Name: oname, Kind: "assert", Tags: ca.C.Tags,
 			Goal: fmt.Sprintf("(=> %s %s)", e.reach[e.cur], t), Src: "at " + name + " assert " + ca.C.Src})
+		// checked here, available afterwards (an assertion that is a listed finding is not assumed)
+		if !e.r.v.isKnownFinding(oname) {
+			e.r.assume(fmt.Sprintf("(=> %s %s)", e.reach[e.cur], t))
+		}
 	}
 }
 
